@@ -28,8 +28,14 @@ SKIP = {"wrap.yaml", "none.yaml"}
 def generate(path, args, out):
     from shroud import main as M
     saved = sys.argv
-    opts = [a for a in args if a.startswith("--") or (args.index(a) > 0 and args[args.index(a) - 1] == "--option")]
-    files = [a for a in args if a not in opts]
+    opts, files, k = [], [], 0
+    while k < len(args):
+        if args[k].startswith("--"):
+            opts += args[k:k + 2]
+            k += 2
+        else:
+            files.append(args[k])
+            k += 1
     sys.argv = ["shroud", "--outdir", out, "--logdir", out, "--path", INPUTS] + opts + [path] + files
     try:
         with contextlib.redirect_stdout(io.StringIO()), contextlib.redirect_stderr(io.StringIO()):
@@ -189,6 +195,69 @@ def check(inp):
                     return "%s: with F_line_length=%d C_line_length=%d the text of %s changes (not only its line breaks): ...%r / ...%r" % (
                         name, inp["F"], inp["C"], n, x[max(0, k - 30):k + 30], y[max(0, k - 30):k + 30])
             return None
+        if rel == "block":
+            # C14: an empty block around all top-level declarations is transparent
+            try:
+                d = yaml.safe_load(open(path))
+                if not isinstance(d, dict) or not isinstance(d.get("declarations"), list) or not d["declarations"]:
+                    return None
+                d["declarations"] = [{"block": True, "declarations": d["declarations"]}]
+                p2 = os.path.join(base, name)
+                open(p2, "w").write(yaml.safe_dump(d, sort_keys=False, default_flow_style=False))
+                p1 = os.path.join(base, "plain_" + name)
+                d1 = yaml.safe_load(open(path))
+                os.makedirs(os.path.join(base, "p1"))
+                open(os.path.join(base, "p1", name), "w").write(yaml.safe_dump(d1, sort_keys=False, default_flow_style=False))
+            except Exception:
+                return None
+            c = os.path.join(base, "c")
+            os.makedirs(c)
+            try:
+                generate(os.path.join(base, "p1", name), [], c)      # the same description re-dumped, without the block
+            except Exception:
+                return None
+            try:
+                generate(p2, [], b)
+            except Exception as e:
+                return "%s is accepted, wrapped in an empty block it fails: %s" % (name, str(e)[:120])
+            fb, fc = files_of(b, CF), files_of(c, CF)
+            for n in sorted(set(fb) | set(fc)):
+                if fb.get(n) != fc.get(n):
+                    la, lb = (fc.get(n) or "").split("\n"), (fb.get(n) or "").split("\n")
+                    k = next((i for i in range(min(len(la), len(lb))) if la[i] != lb[i]), min(len(la), len(lb)))
+                    return "%s: an empty block around the top-level declarations changes %s at line %d: %r / %r" % (
+                        name, n, k + 1, (la + [""])[k][:70], (lb + [""])[k][:70])
+            return None
+        if rel == "lists":
+            # C15: with separate output directories every file lands in the directory of its kind and --cfiles / --ffiles
+            # name exactly the C/C++ and Fortran files written
+            dcf, dpy, dlua = os.path.join(b, "cf"), os.path.join(b, "py"), os.path.join(b, "lua")
+            for d_ in (dcf, dpy, dlua):
+                os.makedirs(d_)
+            cl, fl = os.path.join(base, "c.lst"), os.path.join(base, "f.lst")
+            try:
+                generate(path, ["--outdir-c-fortran", dcf, "--outdir-python", dpy, "--outdir-lua", dlua, "--cfiles", cl, "--ffiles", fl], b)
+            except Exception:
+                return None
+            listed_c = sorted(open(cl).read().split()) if os.path.exists(cl) else []
+            listed_f = sorted(open(fl).read().split()) if os.path.exists(fl) else []
+            written_c = sorted(os.path.join(dcf, n) for n in os.listdir(dcf) if n.endswith((".c", ".cc", ".cpp", ".cxx", ".h", ".hh", ".hpp", ".hxx")))
+            written_f = sorted(os.path.join(dcf, n) for n in os.listdir(dcf) if n.endswith((".f", ".f90", ".F", ".F90")))
+            if listed_c != written_c:
+                return "%s: --cfiles lists %s, C/C++ files written: %s" % (name, [os.path.basename(x) for x in listed_c], [os.path.basename(x) for x in written_c])
+            if listed_f != written_f:
+                return "%s: --ffiles lists %s, Fortran files written: %s" % (name, [os.path.basename(x) for x in listed_f], [os.path.basename(x) for x in written_f])
+            for n in os.listdir(b):
+                if n.endswith(CF) and os.path.isfile(os.path.join(b, n)) and n != "setup.py":
+                    return "%s: %s is written to the top-level output directory although every kind has its own" % (name, n)
+            for n in os.listdir(dcf):
+                if is_py_lua(n):
+                    return "%s: the Python/Lua file %s is written into the C/Fortran directory" % (name, n)
+            for d_, pre in ((dpy, "py"), (dlua, "lua")):
+                for n in os.listdir(d_):
+                    if n.endswith(CF) and not n.startswith(pre) and n != "setup.py":
+                        return "%s: %s is written into the %s directory" % (name, n, pre)
+            return None
         if rel == "names":
             import collections
             for n, text in files_of(a, (".c", ".cpp")).items():
@@ -257,6 +326,9 @@ def candidates(seed, around=None):
     for n in names:
         fam.append({"rel": "linelen", "yaml": n, "F": 60, "C": 60})
         fam.append({"rel": "linelen", "yaml": n, "F": 100, "C": 50})
+    for n in names:
+        fam.append({"rel": "block", "yaml": n})
+        fam.append({"rel": "lists", "yaml": n})
     for first in ("classes.yaml", "struct.yaml", "templates.yaml", "strings.yaml"):
         for n in names:
             if n != first:
